@@ -9,6 +9,7 @@ EXPLANATION = 'Lean: TDV.SP.error_position_* and TDV.MP.error_position (full str
 ASSUMPTIONS = ["worker processes are virtual processes under harness/vsched.py (real _worker_loop, deep-copied arguments, pickled queue payloads)"]
 
 PARTS = [_compose.ko_part("ko", sdl_ko.gen_c10, sdl_ko.check_c10, 200, 4000, known=None)]
+PARTS.append(_compose.ko_part("ko_epoch_start", sdl_ko.gen_c10_epoch_start, sdl_ko.check_c10_epoch_start, 40, 600, known=None))
 from . import sp_kd
 PARTS.append(_compose.Part("sp_kd", lambda ctx: sp_kd.run_kd(ctx, 500, 5000), sp_kd.replay_kd, theorems=sp_kd.THEOREMS_C10, modules=sp_kd.LEAN_MODULES))
 try:
